@@ -269,6 +269,7 @@ type Endpoint struct {
 	cutKept []chunk
 	writeErr error // set by a cut: later writes fail like on a reset TCP connection
 	stalled time.Duration // extra delay added to chunks written from now on (stall fault)
+	gate    chan struct{} // non-nil: every Write first takes one token from it (a slow socket, released write by write)
 	block   chan struct{} // non-nil: Write does not return (the counterparty has stopped reading, the buffers are full)
 	BlockedWrites int
 
@@ -355,6 +356,11 @@ func (e *Endpoint) Write(p []byte) (int, error) {
 		<-blk
 		e.link.w.mu.Lock()
 	}
+	if g := e.gate; g != nil && !e.closed {
+		e.link.w.mu.Unlock()
+		<-g // one token per write; closed by UngateWrites or Close
+		e.link.w.mu.Lock()
+	}
 	now := time.Now()
 	if e.closed {
 		e.WriteAfterClose++
@@ -407,6 +413,10 @@ func (e *Endpoint) Close() error {
 	if e.block != nil {
 		close(e.block)
 		e.block = nil
+	}
+	if e.gate != nil {
+		close(e.gate)
+		e.gate = nil
 	}
 	cb := e.OnClose
 	pumped := e.link.Pumped
@@ -574,6 +584,34 @@ func (e *Endpoint) BlockWrites() {
 	e.link.w.mu.Lock()
 	if e.block == nil && !e.closed {
 		e.block = make(chan struct{})
+	}
+	e.link.w.mu.Unlock()
+}
+
+// GateWrites makes every Write on this endpoint wait for a token (ReleaseWrites): a slow socket whose writes
+// return one at a time, when the driver says so. UngateWrites (or Close) lets everything through again.
+func (e *Endpoint) GateWrites() {
+	e.link.w.mu.Lock()
+	if e.gate == nil && !e.closed {
+		e.gate = make(chan struct{}, 4096)
+	}
+	e.link.w.mu.Unlock()
+}
+
+func (e *Endpoint) ReleaseWrites(n int) {
+	e.link.w.mu.Lock()
+	g := e.gate
+	e.link.w.mu.Unlock()
+	for ; g != nil && n > 0; n-- {
+		g <- struct{}{}
+	}
+}
+
+func (e *Endpoint) UngateWrites() {
+	e.link.w.mu.Lock()
+	if e.gate != nil {
+		close(e.gate)
+		e.gate = nil
 	}
 	e.link.w.mu.Unlock()
 }
